@@ -19,9 +19,9 @@ from vlib import core
 
 PID = 'C14'
 META = {
-    'text': 'Theorems over a Gallina model of the 4-byte big-endian length-prefix reassembly loop (farm Hand, shelve comms Worker, LogSink) and of the legacy handshake wrapper (security.TwistedWrapper): for every byte stream and every way of cutting it into chunks the delivered payload sequence and the final reassembly state equal those of whole delivery (up to the first loseConnection/exception, which on the database channel only protocol-conformant streams never pass); frame/unframe round trip for every message list with payloads < 2^32; no delivery before phase 5 succeeds and none unless some blob passed signature check and echo comparison, bytes after the phase-5 packet are delivered afterwards in order exactly as a fresh protocol would receive them, a failed phase closes with nothing delivered ever; the handshake outcome (challenge, close, deliveries, final state) is independent of the chunking, cuts inside the packets of phases 1-5 included, for every oracle that does not validate-and-echo the empty blob (refuted without that hypothesis; real PGP cannot). The model is tied to the three real dataReceived loops and to the real wrapper by correspondence on every cut of short streams and random cuts of long streams of real pickles. Sender side of the log channel (TwistedHandler.emit/makeSocket on python 3.12 logging.handlers.SocketHandler makePickle/createSocket/send/emit/close, model LogSend.v), composed with one LogSink per connection: for every history of emits, closes, refused or failing connects (with records logged during the connect), failing sendall calls and clock readings, the connection the handler holds carries whole frames only and a LogSink fed its bytes in any fragmentation handles exactly the records written to it, in order (all emitted records, in order, when nothing fails); on every connection that was lost or closed any arriving prefix in any fragmentation yields a prefix of the records written to it and never a partial record; with pairwise different records none is written twice (the record of a failed send and the record emitted when the connect fails are dropped, never re-sent); each record is in exactly one of wire/dropped/queue/local; records logged during a handshake are queued and written before the next record; after one failed connect TwistedHandler keeps __shaking set and queues every later record for ever without reconnecting (C14_log_sender_stuck, a reported defect outside the C14 statement, C14_log_sender_recovers_refuted). Tie: the real handler on the root logger, the real security.connect over a scripted socket, a real LogSink from LogSinkFactory.buildProtocol per connection, seeded random histories with alias and real pickles.',
-    'note': 'Trusted: Coq kernel; hand-written models Frame.v/Shake.v + correspondence driver drive_frame.py (fake transport honouring "no data after loseConnection", recording pickle.loads shim, table-driven PGP oracle, frozen clock/random for the challenge); Twisted delivers dataReceived calls sequentially and none after loseConnection or after an exception escaped; pickle decides decodable/closing per payload (oracles). Sender study: hand-written model LogSend.v + driver drive_logsend.py (scripted socket.socket under dawgie.security, no-op PGP exchange security._send/_recv, scripted time.time and recording pickle shims inside logging.handlers, recorder in place of the file handler of LogSinkFactory, a logging.Filter that names the record security.connect logs; beyond the end of the connect script connections are refused and that record is filtered out); one clock reading per createSocket call; sendall either accepts everything or raises OSError after a strict prefix of the frame; what arrives of a connection is a prefix of what sendall accepted; makePickle never raises. No axioms.',
-    'technique': 'Coq proof over executable models (receiver loop, handshake wrapper, blocking client, log sender composed with the receiver) + model/implementation correspondence (exhaustive small scope + seeded random; scripted socket, clock and connect outcomes for the sender)',
+    'text': 'Theorems over a Gallina model of the 4-byte big-endian length-prefix reassembly loop (farm Hand, shelve comms Worker, LogSink) and of the legacy handshake wrapper (security.TwistedWrapper): for every byte stream and every way of cutting it into chunks the delivered payload sequence and the final reassembly state equal those of whole delivery (up to the first loseConnection/exception, which on the database channel only protocol-conformant streams never pass); frame/unframe round trip for every message list with payloads < 2^32; no delivery before phase 5 succeeds and none unless some blob passed signature check and echo comparison, bytes after the phase-5 packet are delivered afterwards in order exactly as a fresh protocol would receive them, a failed phase closes with nothing delivered ever; the handshake outcome (challenge, close, deliveries, final state) is independent of the chunking, cuts inside the packets of phases 1-5 included, for every oracle that does not validate-and-echo the empty blob (refuted without that hypothesis; real PGP cannot). The model is tied to the three real dataReceived loops and to the real wrapper by correspondence on every cut of short streams and random cuts of long streams of real pickles. Sender side of the log channel (TwistedHandler.emit/makeSocket on python 3.12 logging.handlers.SocketHandler makePickle/createSocket/send/emit/close, model LogSend.v), composed with one LogSink per connection: for every history of emits, closes, refused or failing connects (with records logged during the connect), failing sendall calls and clock readings, the connection the handler holds carries whole frames only and a LogSink fed its bytes in any fragmentation handles exactly the records written to it, in order (all emitted records, in order, when nothing fails); on every connection that was lost or closed any arriving prefix in any fragmentation yields a prefix of the records written to it and never a partial record; with pairwise different records none is written twice (the record of a failed send and the record emitted when the connect fails are dropped, never re-sent); each record is in exactly one of wire/dropped/queue/local; records logged during a handshake are queued and written before the next record; after one failed connect TwistedHandler keeps __shaking set and queues every later record for ever without reconnecting (C14_log_sender_stuck, a reported defect outside the C14 statement, C14_log_sender_recovers_refuted). Tie: the real handler on the root logger, the real security.connect over a scripted socket, a real LogSink from LogSinkFactory.buildProtocol per connection, seeded random histories with alias and real pickles. Source tie: the encoders (message.send, Worker._send), the receiver steps (LogSink / Worker / Hand dataReceived with their __init__) and the blocking message.receive are regenerated from the python source on every run (frame2coq.py, fail closed) and proved equal to frame / iter / feed / receive of the models for every argument (C14_send/_logsink/_worker/_hand/_receive_is_source, C14_chunking_on_source); what is done with a decoded message is not translated.',
+    'note': 'Trusted: Coq kernel; hand-written models Frame.v/Shake.v + correspondence driver drive_frame.py (fake transport honouring "no data after loseConnection", recording pickle.loads shim, table-driven PGP oracle, frozen clock/random for the challenge); Twisted delivers dataReceived calls sequentially and none after loseConnection or after an exception escaped; pickle decides decodable/closing per payload (oracles). Sender study: hand-written model LogSend.v + driver drive_logsend.py (scripted socket.socket under dawgie.security, no-op PGP exchange security._send/_recv, scripted time.time and recording pickle shims inside logging.handlers, recorder in place of the file handler of LogSinkFactory, a logging.Filter that names the record security.connect logs; beyond the end of the connect script connections are refused and that record is filtered out); one clock reading per createSocket call; sendall either accepts everything or raises OSError after a strict prefix of the frame; what arrives of a connection is a prefix of what sendall accepted; makePickle never raises. No axioms. Translator frame2coq.py (python ast -> Gallina; struct.pack/unpack(\'>I\'|\'>L\') = enc32/be32, slices = firstn/skipn), validated each run against the real classes on small-scope streams and against the real send functions (drive_framegen.py).',
+    'technique': 'Coq proof over executable models (receiver loop, handshake wrapper, blocking client, log sender composed with the receiver) + model/implementation correspondence (exhaustive small scope + seeded random; scripted socket, clock and connect outcomes for the sender) + translation of the framing functions from the source with equality proofs',
 }
 
 CHANS = ('farm', 'db', 'log')
@@ -443,6 +443,7 @@ def run_framing(ctx, real):
                    'no chunking of the db stream "closing-then-more" stops short of whole delivery: '
                    'model (C14_db_pipelined_refuted) and code have diverged',
                    {'source': 'correspondence', 'theorem': 'C14_db_pipelined_refuted'})
+    _STASH['framing'] = (cases, per_case)
     model = model_frames(ctx, cases)
     nev = 0
     keys = []
@@ -889,6 +890,7 @@ def run_client(ctx, real):
         idx.append(('recv', canon))
     # sends are few (list Z each); the receives are batched 60 per Eval
     is_send = [k == 'send' for k, _ in idx]
+    _STASH['client'] = (cases, idx, exprs)
     rexprs = [e for e, s in zip(exprs, is_send) if not s]
     batched = ['[' + '; '.join(rexprs[i:i + 60]) + ']' for i in range(0, len(rexprs), 60)]
     rres = [x for b in ctx.coq_eval(['DV.Model.Frame', 'DV.Model.Client'], batched, chunk=5) for x in b]
@@ -1185,6 +1187,166 @@ def run_logsend(ctx):
                     'observed': repr(io)[:4000]})
 
 
+# ---------------------------------------------------------------------------
+# source tie: Gen/FrameGen.v (frame2coq.py) = Model/Frame.v + Model/Client.v,
+# proved in Proofs/FrameGenEq.v (pattern of props/gen_tie.py)
+# ---------------------------------------------------------------------------
+_STASH = {}
+GEN_OF = {'farm': 'hand', 'db': 'worker', 'log': 'logsink'}
+GEN_PRE = '''
+Definition gconn_feed (gf : fstate -> list Z -> fstate * list (list Z)) (ch : chan) (c : conn) (data : list Z)
+  : conn * list out :=
+  if clive c then
+    let '(fs, ps) := gf (cfs c) data in
+    let o := emit ch ps in (mkC fs (negb (existsb is_stop o)), o)
+  else (c, []).
+Fixpoint gconn_run gf (ch : chan) (c : conn) (chunks : list (list Z)) : conn * list out :=
+  match chunks with
+  | [] => (c, [])
+  | d :: ds => let '(c1, o1) := gconn_feed gf ch c d in
+               let '(c2, o2) := gconn_run gf ch c1 ds in (c2, o1 ++ o2)
+  end.
+Definition grun_all gf (i : fstate) ch tbl (s : list Z) :=
+  map (fun cs => (map (fun c => Z.of_nat (List.length c)) cs, obs_conn tbl (gconn_run gf ch (mkC i true) cs)))
+      (chunkings s).
+Definition grun_lens gf (i : fstate) ch tbl (lens : list Z) (s : list Z) :=
+  obs_conn tbl (gconn_run gf ch (mkC i true) (split_lens lens s)).
+Fixpoint greceive_n (k : nat) (s : sock) : option (list (list Z) * sock) :=
+  match k with
+  | O => Some ([], s)
+  | S k' => match FrameGen.message_receive s with
+            | None => None
+            | Some (p, s1) => match greceive_n k' s1 with
+                              | None => None
+                              | Some (ps, s2) => Some (p :: ps, s2)
+                              end
+            end
+  end.
+'''
+
+
+def source_generate(ctx):
+    ok, msg = ctx.generate('frame2coq.py', 'Gen/FrameGen.v')
+    ctx.trust('translator tools/translate/frame2coq.py (python ast of message.send/receive, comms.Worker._send/'
+              '__init__/dataReceived, LogSink.__init__/dataReceived, farm.Hand.__init__/dataReceived -> Gallina '
+              'over the byte lists of Model/Frame.v, fail closed; struct.pack/unpack(">I"|">L") = enc32/be32, '
+              'slices = firstn/skipn; what is done with a decoded message is NOT translated); validated on '
+              'every run by running the generated receivers / receive / encoders on the small-scope streams '
+              'against the real classes; the generated definitions are PROVED equal to frame / iter / feed / '
+              'receive, coq/Proofs/FrameGenEq.v')
+    fps = ctx.cov.setdefault('translated_fingerprints', {})
+    for rel, names in (('Python/dawgie/pl/message.py', ['send', 'receive']),
+                       ('Python/dawgie/db/shelve/comms.py', ['Worker._send', 'Worker.__init__', 'Worker.dataReceived']),
+                       ('Python/dawgie/pl/logger/__init__.py', ['LogSink.__init__', 'LogSink.dataReceived']),
+                       ('Python/dawgie/pl/farm.py', ['Hand.__init__', 'Hand.dataReceived'])):
+        fps[rel] = core.fingerprint(rel, names)
+    if not ok:
+        ctx.log('frame2coq.py refuses the source: %s' % msg.strip()[-300:])
+    return {'ok': ok, 'msg': msg}
+
+
+def source_validate(ctx, g, r):
+    '''after the framing and client studies (their oracles ARE the search for a
+    failing input the tie needs when the translator refuses the source or the
+    equality proofs break): the generated definitions against the real code'''
+    found = ctx.nviol > 0
+    bad = None
+    nval = 0
+    if g['ok']:
+        try:
+            # (1) receivers: every cut of four small-scope streams per channel
+            cases, per_case = _STASH.get('framing', ([], []))
+            pre, exprs, shape = [GEN_PRE], [], []
+            for k, c in enumerate(cases):
+                gp = GEN_OF[c.chan]
+                # (kept small: the equality is proved; this guards the translator itself)
+                if c.label not in ('two-frames', 'zero-length-frame', 'partial-payload', 'closing-then-more'):
+                    continue
+                pre.append('Definition s%d : list Z := %s.' % (k, zl(c.stream)))
+                pre.append('Definition t%d : list (list Z) := %s.' % (k, zll(c.known)))
+                pre.append('Definition c%d : chan := chan_of %s %s.'
+                           % (k, zll(c.closers) if c.closers else '(@nil (list Z))',
+                              zll(c.good) if c.good else '(@nil (list Z))'))
+                if c.chunkings == 'all':
+                    exprs.append('grun_all FrameGen.%s_feed FrameGen.%s_init c%d t%d s%d' % (gp, gp, k, k, k))
+                    shape.append((k, 'all', None))
+                else:
+                    part = c.chunkings[:30]
+                    ll = '[' + ';'.join(zl(l[:-1]) if len(l) > 1 else '(@nil Z)' for l in part) + ']'
+                    exprs.append('map (fun l => grun_lens FrameGen.%s_feed FrameGen.%s_init c%d t%d l s%d) %s'
+                                 % (gp, gp, k, k, k, ll))
+                    shape.append((k, 'some', part))
+            res = ctx.coq_eval(['DV.Model.Frame', 'DV.Model.Client', 'DV.Gen.FrameGen'], exprs,
+                               preamble='\n'.join(pre), chunk=12)
+            for (k, kind, part), rr in zip(shape, res):
+                mod = {}
+                if kind == 'all':
+                    for lens, obs in rr:
+                        mod[tuple(lens)] = canon_model(obs)
+                else:
+                    for lens, obs in zip(part, rr):
+                        mod[tuple(lens)] = canon_model(obs)
+                for lens, obs, raw in per_case[k]:
+                    if tuple(lens) not in mod:
+                        continue
+                    nval += 1
+                    if mod[tuple(lens)] != obs and bad is None:
+                        bad = {'what': '%s.dataReceived' % GEN_OF[cases[k].chan], 'stream': cases[k].stream.hex(),
+                               'chunks': lens, 'python': obs, 'generated': mod[tuple(lens)]}
+            # (2) message.receive: the short socket cases
+            ccases, idx, cexprs = _STASH.get('client', ([], [], []))
+            sel = [i for i, (c, (kind, _)) in enumerate(zip(ccases, idx))
+                   if kind == 'recv' and c['fn'] == 'receive' and len(c['stream']) <= 24]
+            sel = sel[::max(1, len(sel) // 240)]
+            gex = [cexprs[i].replace('(receive_n ', '(greceive_n ') for i in sel]
+            batched = ['[' + '; '.join(gex[i:i + 60]) + ']' for i in range(0, len(gex), 60)]
+            sizes = [0, 40, 300, 66000]
+            sent = ctx.harness('drive_framegen.py', {'sizes': sizes})['cases']
+            sex = []
+            for o in sent:
+                f = 'FrameGen.message_send' if o['fn'] == 'message.send' else 'FrameGen.worker_send'
+                if o['payload'] is not None:
+                    sex.append('%s %s' % (f, zl(bytes.fromhex(o['payload']))))
+                else:
+                    sex.append('(fun b => (firstn 4 b, Z.of_nat (List.length b))) (%s (repeat 0 (Z.to_nat %d)))'
+                               % (f, o['payload_len']))
+            both = ctx.coq_eval(['DV.Model.Frame', 'DV.Model.Client', 'DV.Gen.FrameGen'], batched + sex,
+                                preamble=GEN_PRE, chunk=7)
+            rres = [x for b in both[:len(batched)] for x in b]
+            sres = both[len(batched):]
+            for i, m in zip(sel, rres):
+                evs, left = m
+                nval += 1
+                if ([list(e) for e in evs], [list(x) for x in left]) != idx[i][1] and bad is None:
+                    bad = {'what': 'message.receive', 'chunks': [x.hex() for x in ccases[i]['chunks']],
+                           'python': idx[i][1], 'generated': m}
+            # (3) the encoders, on the real send functions
+            for o, m in zip(sent, sres):
+                nval += 1
+                if o['payload'] is not None:
+                    ok = o['exc'] is None and o['pieces'] == 1 and list(bytes.fromhex(o['written'][0])) == list(m)
+                else:
+                    ok = o['exc'] is None and o['pieces'] == 1 and \
+                        (list(bytes.fromhex(o['written'][0])), o['written_len'][0]) == (list(m[0]), m[1])
+                if not ok and bad is None:
+                    bad = {'what': o['fn'], 'payload_len': o['payload_len'], 'python': o, 'generated': m}
+        except core.CoqEvalError as e:
+            bad = {'what': 'Gen/FrameGen.v', 'generated': 'does not evaluate: %s' % (e.args[1][-600:],)}
+        if bad and not found:
+            ctx.broken('translator validation: the definition generated for %s disagrees with the python code'
+                       % bad['what'], repr(bad),
+                       {'source': 'translator-validation', 'expected': repr(bad.get('generated')),
+                        'observed': repr(bad.get('python'))})
+    elif not found:
+        ctx.broken('translator frame2coq.py refuses the framing sources (shape changed) and the framing / client '
+                   'studies found no input on which the new code breaks the property', g['msg'],
+                   {'source': 'translator'})
+    ctx.count(evaluations=nval, nontrivial_keys=[])
+    ctx.note('source_tie_frame', {'translator_ok': g['ok'], 'proved_equal': bool(r['ok'] and g['ok']),
+                                  'generated_vs_python_evaluations': nval,
+                                  'generated_vs_python_mismatch': bad})
+
+
 def replay(ctx):
     """re-execute the case of a replay file against the real code: prints the
     trace of every listed chunking and re-evaluates the chunking oracle on them"""
@@ -1262,14 +1424,20 @@ def run(ctx):
         return replay(ctx)
     if os.environ.get('C14_ONLY') == 'logsend':     # development aid: the sender study alone
         return run_logsend(ctx)
+    g = source_generate(ctx)
     r = ctx.coq_props()
     real = real_payloads(ctx)
+    if os.environ.get('C14_ONLY') == 'source':      # development aid: the source tie alone
+        run_framing(ctx, real)
+        run_client(ctx, real)
+        return source_validate(ctx, g, r)
     run_framing(ctx, real)
     if not ctx.quick:
         run_big(ctx)
     run_handshake(ctx, real)
     run_client(ctx, real)
     run_logsend(ctx)
+    source_validate(ctx, g, r)
     if not r['ok']:
         ctx.broken('theorem/file %s' % r['failing'], r['log'],
                    {'source': 'proof', 'theorem': r['failing']})
